@@ -190,9 +190,9 @@ CHECKS["C10"] = dict(level="model_checking", ref="DESIGN.md 0.1, 5 C10", tech=VA
          "of feeding the message (single-part, one part, uneven parts, too-small buffer first and retry) is a transition whose "
          "result TERM does not contain the way of feeding: TLC demands one byte string per term, equal to the reference; the "
          "inverse operation restores / verifies it; every altered variant (data, MAC, signature, GCM tag, IV, AAD, "
-         "truncation) is rejected. Randomised schemes (PSS, OAEP, PKCS#1 v1.5 encryption): the reference accepts the "
+         "truncation) is rejected. Randomised schemes (PSS, OAEP, PKCS#1 v1.5 encryption, ECDSA P-256): the reference accepts the "
          "library's output and the library the reference's. Digests; derived secrets (encrypt-data, concatenation, DH, ECDH).",
-    note="Trusted as C13. NOT covered yet: DSA, ECDSA / EdDSA signature values, X25519/X448, raw RSA, RSA > 1024 bits, GCM "
+    note="Trusted as C13. NOT covered yet: DSA, EdDSA, ECDSA beyond P-256, X25519/X448, raw RSA, RSA > 1024 bits, GCM "
          "IV / tag length ranges, CTR counter widths other than 128 (DESIGN.md 0.1 'Not covered').")
 CHECKS["C20"] = dict(level="model_checking", ref="DESIGN.md 0.1, 5 C20",
     tech=VALTECH + "; the same behaviours under file/OpenSSL, db/OpenSSL, file/Botan, db/Botan in ONE trace validation; "
